@@ -95,6 +95,27 @@ def run(ctx):
             compare("Fluid.oil_viscosity", fl.oil_viscosity, lambda x: oil.viscosity_beggs_robinson(T, x, api, gg, rsi), arr, label, params)
             compare("Fluid.water_FVF", fl.water_FVF, lambda x: water.b_water_McCain(T, x), arr, label, params)
             compare("Fluid.water_viscosity", fl.water_viscosity, lambda x: water.viscosity_water_McCain(T, x, sal), arr, label, params)
+        # integer-valued scalar parameters (Python ints) with large integer pressures: any product formed
+        # in the array's integer dtype before a float enters (p*T, p**2*T, ...) wraps silently for int32
+        Ti, sali = int(rng.choice([100, 200, 300, 400])), int(rng.integers(0, 25))
+        apii, rsii = int(rng.integers(20, 50)), int(rng.integers(200, 1500))
+        big = np.arange(500, 20001, 1500)
+        pbi = float(oil.pressure_bubblepoint_Standing(Ti, apii, 0.8, rsii))
+        pari = dict(T=Ti, salinity=sali, api=apii, gg=0.8, Rsi=rsii, note="Python-int parameters")
+        for label, arr in variants(big, rng):
+            if label in ("empty", "length-1", "read-only"):
+                continue
+            for fn, argc in (("b_water_McCain", 0), ("b_water_McCain_dp", 0), ("compressibility_water_McCain", 1), ("density_water_McCain", 1), ("viscosity_water_McCain", 1)):
+                f = getattr(water, fn)
+                extra = (sali,) if argc else ()
+                compare("water." + fn, lambda a, f=f, extra=extra: f(Ti, a, *extra), lambda x, f=f, extra=extra: f(Ti, x, *extra), arr, label + "/int-params", pari)
+            fli = Fluid(Ti, apii, 0.8, rsii, sali, 0.1)
+            compare("Fluid.water_FVF", fli.water_FVF, lambda x: water.b_water_McCain(Ti, x), arr, label + "/int-params", pari)
+            compare("Fluid.water_viscosity", fli.water_viscosity, lambda x: water.viscosity_water_McCain(Ti, x, sali), arr, label + "/int-params", pari)
+            if pbi > 50:
+                compare("oil.b_o_Standing", lambda a: oil.b_o_Standing(Ti, a, apii, 0.8, rsii), lambda x: oil.b_o_Standing(Ti, x, apii, 0.8, rsii), arr, label + "/int-params", pari)
+                compare("oil.solution_gor_Standing", lambda a: oil.solution_gor_Standing(Ti, a, apii, 0.8, rsii), lambda x: oil.solution_gor_Standing(Ti, x, apii, 0.8, rsii), arr, label + "/int-params", pari)
+                compare("Fluid.oil_FVF", fli.oil_FVF, lambda x: oil.b_o_Standing(Ti, x, apii, 0.8, rsii), arr, label + "/int-params", pari)
         # exactly at the bubble point (float64 only: pb is not representable in the other dtypes)
         exact = np.array([np.nextafter(pb, 0), pb, np.nextafter(pb, 1e9), pb / 2, 2 * pb])
         for label, arr in (("contains-pb", exact), ("contains-pb-strided", np.repeat(exact, 2)[::2])):
@@ -102,7 +123,7 @@ def run(ctx):
             compare("oil.solution_gor_Standing", lambda a: oil.solution_gor_Standing(T, a, api, gg, rsi), lambda x: oil.solution_gor_Standing(T, x, api, gg, rsi), arr, label, params)
     ctx.cov.update(evaluations=ev, distinct_nontrivial=len(kinds),
                    rule="for random oils: pressure arrays on both sides of p_b as float64/float32/int64/int32 x {contiguous, strided view, reversed view, "
-                        "read-only, empty, length 1}, plus float64 arrays containing p_b itself and its two float neighbours; every function of the "
+                        "read-only, empty, length 1}, also with Python-int scalar parameters and integer pressures up to 20000 (integer products can wrap), plus float64 arrays containing p_b itself and its two float neighbours; every function of the "
                         "property's observe_at list; compared element by element with the scalar call (rtol 1e-12, 2e-5 for float32 input)",
                    input_distribution={"dtypes": [str(np.dtype(d)) for d in DTYPES], "functions": sorted({k_[0] for k_ in kinds})})
     ctx.validated_only.append("float32 rounding (cast to float32 is the identity in the model); behaviour exactly at p_b in floats")
